@@ -7,7 +7,10 @@ def extra(ctx, info, rng, fam, hs):
         from lib import c12rl
     except ImportError:
         return {"rate_limit_module": "absent"}
-    return c12rl.run(ctx, info, rng)
+    frag = c12rl.run(ctx, info, rng)
+    from lib import c12pub
+    frag.update(c12pub.run(ctx, info, rng))
+    return frag
 
 
 def main(ctx, replay):
